@@ -54,8 +54,14 @@ pub fn run(focus_name: &str, cfg: Cfg, out: &mut Out) {
     let n_filters = (cfg.share(if cfg.quick() { 2400 } else { 160_000 }) / n_schemes).max(1) as usize;
     let n_ctx = if cfg.quick() { 6 } else { 10 };
     let mut core = Core::new();
-    for _ in 0..n_schemes {
-        let spec = fgen::rich_scheme(&mut rng, 128);
+    for k in 0..n_schemes {
+        let mut spec = fgen::rich_scheme(&mut rng, 128);
+        // every way of building the scheme occurs in every run; the route that relies on the
+        // documented default of the nil-not-equal behaviour needs that default to matter
+        spec.route = ((3 + k + cfg.shard) % 4) as u8 | (spec.route & 4);
+        if spec.route & 3 == 3 {
+            spec.nil_ne = true;
+        }
         let line = spec.op_line();
         let a = core.apply(&line).expect("scheme line");
         out.case(&line, &a, None, &["scheme"]);
@@ -110,6 +116,51 @@ pub fn run(focus_name: &str, cfg: Cfg, out: &mut Out) {
             tags.extend(stats.iter());
             let key = format!("{text}#{ci}");
             out.case(&op, &ans, if nontrivial { Some(&key) } else { None }, &tags);
+        }
+        // histories on ONE live context: add members to the matchers / set values / clear /
+        // execute, in every order ("matcher state set on a context is what executions see ...
+        // and is emptied by clear"), starting from a context without any value
+        if focus == Focus::Lists {
+            let list_filters: Vec<String> =
+                batch.iter().filter(|(t, v, _)| !*v && t.contains('$')).map(|x| x.0.clone()).take(60).collect();
+            let n_hist = cfg.share(if cfg.quick() { 160 } else { 4000 });
+            for _ in 0..n_hist {
+                if list_filters.is_empty() {
+                    break;
+                }
+                let emit = |core: &mut Core, out: &mut Out, line: String, tag: &'static str| {
+                    let a = core.apply(&line).expect("history op");
+                    let key = line.clone();
+                    out.case(&line, &a, if tag == "hist.exec" { Some(&key) } else { None }, &[tag]);
+                };
+                emit(&mut core, out, "ctx . .".to_string(), "hist.start");
+                let mut has_values = false;
+                let steps = 5 + rng.below(6);
+                for _ in 0..steps {
+                    let c = fgen::gen_ctx(&mut rng, &spec);
+                    let cl = c.op_line();
+                    let parts: Vec<&str> = cl.split(' ').collect();
+                    match rng.below(8) {
+                        0 | 1 => emit(&mut core, out, format!("ctxmut set . {}", parts[2]), "hist.members"),
+                        2 | 3 => {
+                            emit(&mut core, out, "ctxmut clear".to_string(), "hist.clear");
+                            has_values = false;
+                        }
+                        4 => {
+                            emit(&mut core, out, format!("ctxmut set {} .", parts[1]), "hist.values");
+                            has_values = true;
+                        }
+                        _ => {
+                            if !has_values {
+                                emit(&mut core, out, format!("ctxmut set {} .", parts[1]), "hist.values");
+                                has_values = true;
+                            }
+                            let t = rng.pick(&list_filters).clone();
+                            emit(&mut core, out, format!("exec {}", hex(t.as_bytes())), "hist.exec");
+                        }
+                    }
+                }
+            }
         }
     }
 }
